@@ -135,7 +135,7 @@ func decodeContentParameter(param *openapi3.Parameter, input *RequestValidationI
 	case openapi3.ParameterInCookie:
 		var cookie *http.Cookie
 		if cookie, err = input.Request.Cookie(param.Name); err == http.ErrNoCookie {
-			found = false
+			found, err = false, nil // absent, which is an error for a required parameter only
 		} else if err != nil {
 			return
 		} else {
